@@ -297,23 +297,7 @@ def build_item(spec: dict, sections: dict, substs: list, defines: set, log: list
             off = rsx.tail_offset(it)
             edits.append(Edit(off, off, sections[('tail',)].rstrip() + '\n', 'tail'))
         lo_t, hi_t = it.open_tok, it.close_tok
-        # ---- R2: debug_assert!(e) -> assert(e)
-        if 'R2' in rewrites:
-            for j in range(lo_t, hi_t):
-                if toks[j].kind == 'ident' and toks[j].text == 'debug_assert' and toks[j + 1].text == '!':
-                    edits.append(Edit(toks[j].start, toks[j + 1].end, 'assert', 'R2'))
-                    applied.append(f'R2 {relfile}:{it.line_of(toks[j].start)}: debug_assert!(..) -> assert(..) (static)')
-        # ---- R4: f64 `%` and `/` -> opaque primitives
-        if 'R4' in rewrites:
-            for j in range(lo_t, hi_t):
-                if toks[j].kind == 'punct' and toks[j].text in ('%', '/'):
-                    l0 = rsx.operand_left(toks, j, lo_t)
-                    r1 = rsx.operand_right(toks, j, hi_t)
-                    L = src[toks[l0].start:toks[j - 1].end]
-                    R = src[toks[j + 1].start:toks[r1 - 1].end]
-                    fn = '__f64_rem' if toks[j].text == '%' else '__f64_div'
-                    edits.append(Edit(toks[l0].start, toks[r1 - 1].end, f'{fn}({L}, {R})', 'R4'))
-                    applied.append(f'R4 {relfile}:{it.line_of(toks[j].start)}: `{L} {toks[j].text} {R}` -> `{fn}({L}, {R})`')
+        _rewrite_r2_r4(it, rewrites, edits, applied, relfile, lo_t, hi_t)
         # ---- R10: RECV.nth(ARG) -> __iter_nth(RECV, ARG)
         if 'R10' in rewrites:
             for j in range(lo_t, hi_t):
@@ -327,6 +311,8 @@ def build_item(spec: dict, sections: dict, substs: list, defines: set, log: list
             _rewrite_r6(it, edits, applied, relfile, lo_t, hi_t)
     else:
         lo_t, hi_t = it.first_tok, _tok_range(it)[1]
+        rewrites = [r for r in spec.get('rewrites', '').split(',') if r]
+        _rewrite_r2_r4(it, rewrites, edits, applied, relfile, lo_t, hi_t)
         new_name = spec.get('as')
         if new_name:
             nt = toks[it.name_tok]
@@ -360,6 +346,29 @@ def build_item(spec: dict, sections: dict, substs: list, defines: set, log: list
     if not twin:
         log.extend(applied)
     return text, [(relfile, o) for o in origins], info
+
+
+def _rewrite_r2_r4(it, rewrites, edits, applied, relfile, lo_t, hi_t, r2_to='assert'):
+    toks, src = it.toks, it.src
+    if 'R2' in rewrites or 'R2K' in rewrites:
+        for j in range(lo_t, hi_t):
+            if toks[j].kind == 'ident' and toks[j].text == 'debug_assert' and toks[j + 1].text == '!':
+                if 'R2' in rewrites:
+                    edits.append(Edit(toks[j].start, toks[j + 1].end, 'assert', 'R2'))
+                    applied.append(f'R2 {relfile}:{it.line_of(toks[j].start)}: debug_assert!(..) -> assert(..) (static)')
+                else:
+                    edits.append(Edit(toks[j].start, toks[j + 1].end, 'assert!', 'R2K'))
+                    applied.append(f'R2K {relfile}:{it.line_of(toks[j].start)}: debug_assert!(..) -> assert!(..) (checked by Kani on every path)')
+    if 'R4' in rewrites:
+        for j in range(lo_t, hi_t):
+            if toks[j].kind == 'punct' and toks[j].text in ('%', '/'):
+                l0 = rsx.operand_left(toks, j, lo_t)
+                r1 = rsx.operand_right(toks, j, hi_t)
+                L = src[toks[l0].start:toks[j - 1].end]
+                R = src[toks[j + 1].start:toks[r1 - 1].end]
+                fn = '__f64_rem' if toks[j].text == '%' else '__f64_div'
+                edits.append(Edit(toks[l0].start, toks[r1 - 1].end, f'{fn}({L}, {R})', 'R4'))
+                applied.append(f'R4 {relfile}:{it.line_of(toks[j].start)}: `{L} {toks[j].text} {R}` -> `{fn}({L}, {R})`')
 
 
 def _subst_text(text: str, a: str, b: str) -> str:
